@@ -14,6 +14,7 @@ Units
   sample  field(p) for every cell x {centre, 4 off-centre, faces, corners}
   access  component access for every label, iteration order
   line    line(p1, p2, n) for all ordered pairs of a 9-point set x n
+  line_faces  lines from every vertex of the first axis to the lower / upper face of the region x n = 2..7
   bad     every bad specification x every route, field snapshot unchanged
 """
 import math
@@ -72,9 +73,9 @@ SHAPES_T = {
     1: [(1,), (2,), (3,), (5,), (7,)],
     2: [(1, 1), (2, 3), (3, 2), (4, 4), (1, 5), (5, 1)],
     3: [(2, 2, 2), (1, 2, 3), (3, 1, 2), (2, 3, 2)],
-    4: [(2, 2, 2, 2), (1, 2, 1, 3), (2, 1, 3, 2)],
+    4: [(2, 2, 2, 2), (1, 2, 1, 3), (2, 1, 3, 2), (1, 2, 3, 2)],  # (1,2,3,2): BOTH middle axes longer than one cell
 }
-SHAPES_Q = {1: [(1,), (3,)], 2: [(2, 3), (1, 5)], 3: [(1, 2, 3)], 4: [(2, 1, 3, 2)]}
+SHAPES_Q = {1: [(1,), (3,)], 2: [(2, 3), (1, 5)], 3: [(1, 2, 3)], 4: [(2, 1, 3, 2), (1, 2, 3, 2)]}
 
 SITE = {"ctor": "Field.ctor", "update": "Field.update_field_values", "setter": "Field.array-setter"}
 DT = {"None": None, "float": float, "int": int, "complex": complex, "bool": bool}
@@ -898,26 +899,12 @@ def _line_point(geo, name):
     return p
 
 
-def unit_line(ctx):
-    quick = ctx.tier == "quick"
-    n = ctx.choose("n", LINE_SHAPES_Q if quick else LINE_SHAPES_T)
-    geom = ctx.choose("geom", geoms(ctx.tier))
-    nvdim = ctx.choose("nvdim", [1, 3] if quick else [1, 2, 3])
-    vd = ctx.choose("vdims", [None] if quick else VDIMS[nvdim][:2])
-    a = ctx.choose("p1", list(LINE_PTS))
-    b = ctx.choose("p2", list(LINE_PTS))
-    npts = ctx.choose("npoints", [2, 3, 5])
-    ptype = ctx.choose("ptype", ["tuple"] + (["scalar"] if len(n) == 1 else []))
-    nd = len(n)
-    mesh = mk_mesh(n, geom)
-    geo = Geo(mesh)
-    data = tdata(n, nvdim, "float", ctx.seed, salt=1)
-    f = df.Field(mesh, nvdim=nvdim, value=data, vdims=None if vd is None else list(vd))
-    p1, p2 = _line_point(geo, a), _line_point(geo, b)
+def _check_line(ctx, f, geo, p1, p2, npts, arg1, arg2, nvdim, label, inst):
+    """field.line(p1, p2, n): number of points, equidistant positions, values of a cell containing the returned point,
+    distance from p1, field untouched"""
+    nd = geo.nd
     before = C.field_snap(f)
-    arg1, arg2 = (tuple(p1), tuple(p2)) if ptype == "tuple" else (p1[0], p2[0])
-    inst = ctx.key(drop=("geom", "vdims"))
-    ctx.step(1, f"field.line({a}, {b}, n={npts})")
+    ctx.step(1, label)
     line = f.line(p1=arg1, p2=arg2, n=npts)
     dat = line.data
     ctx.check()
@@ -960,6 +947,60 @@ def unit_line(ctx):
     ctx.check()
     if C.field_snap(f) != before:
         ctx.fail("Field.line/field-modified", "line sampling changed the field", instance=inst)
+
+
+
+def unit_line(ctx):
+    quick = ctx.tier == "quick"
+    n = ctx.choose("n", LINE_SHAPES_Q if quick else LINE_SHAPES_T)
+    geom = ctx.choose("geom", geoms(ctx.tier))
+    nvdim = ctx.choose("nvdim", [1, 3] if quick else [1, 2, 3])
+    vd = ctx.choose("vdims", [None] if quick else VDIMS[nvdim][:2])
+    a = ctx.choose("p1", list(LINE_PTS))
+    b = ctx.choose("p2", list(LINE_PTS))
+    npts = ctx.choose("npoints", [2, 3, 5])
+    ptype = ctx.choose("ptype", ["tuple"] + (["scalar"] if len(n) == 1 else []))
+    nd = len(n)
+    mesh = mk_mesh(n, geom)
+    geo = Geo(mesh)
+    data = tdata(n, nvdim, "float", ctx.seed, salt=1)
+    f = df.Field(mesh, nvdim=nvdim, value=data, vdims=None if vd is None else list(vd))
+    p1, p2 = _line_point(geo, a), _line_point(geo, b)
+    arg1, arg2 = (tuple(p1), tuple(p2)) if ptype == "tuple" else (p1[0], p2[0])
+    inst = ctx.key(drop=("geom", "vdims"))
+    _check_line(ctx, f, geo, p1, p2, npts, arg1, arg2, nvdim, f"field.line({a}, {b}, n={npts})", inst)
+
+
+# points on cell faces as line ends: the last point p1 + (n-1)*(p2-p1)/(n-1) may round to one ulp outside the region
+FACE_AXES = [(0.1, 0.1, 6), (0.1, 0.2, 3), (-0.3, 0.1, 5), (7.7, 1.0 / 3.0, 3), (0.0, 0.7, 4)]
+
+
+def unit_line_faces(ctx):
+    """lines that start on ANY vertex of the first axis and end exactly on the lower or upper face of the region, for
+    every number of points 2..7, on lattices whose faces are not representable: the computed end point can round to one
+    ulp outside the region; it must still be reported with the value of the boundary cell it belongs to"""
+    nd = ctx.choose("ndim", [1, 2, 3])
+    lo, w, k = ctx.choose("axis", FACE_AXES)
+    n = [k, 2, 3][:nd]
+    ax = [(lo, w), (-0.25, 0.5), (1.5, 0.25)][:nd]
+    pmin = [a[0] for a in ax]
+    pmax = [a[0] + a[1] * c for a, c in zip(ax, n)]
+    mesh = df.Mesh(region=df.Region(p1=pmin, p2=pmax), n=n)
+    geo = Geo(mesh)
+    verts = [float(v) for v in mesh.vertices.x]
+    cents = [float(v) for v in mesh.cells.x]
+    start = ctx.choose("from", [("vertex", i) for i in range(len(verts))] + [("centre", 0), ("centre", len(cents) - 1)])
+    end = ctx.choose("to", ["lower-face", "upper-face"])
+    npts = ctx.choose("npoints", [2, 3, 4, 5, 6, 7])
+    x1 = verts[start[1]] if start[0] == "vertex" else cents[start[1]]
+    x2 = float(mesh.region.pmin[0]) if end == "lower-face" else float(mesh.region.pmax[0])
+    if x1 == x2:
+        raise engine.Skip()
+    other = [float(c) for c in geo.centre_float(tuple(0 for _ in n))][1:]
+    p1, p2 = [x1] + other, [x2] + other
+    nvdim = 2
+    f = df.Field(mesh, nvdim=nvdim, value=tdata(tuple(n), nvdim, "float", ctx.seed, salt=1))
+    _check_line(ctx, f, geo, p1, p2, npts, tuple(p1), tuple(p2), nvdim, f"field.line({p1}, {p2}, n={npts})", ctx.key())
 
 
 # ==========================================================================
@@ -1086,5 +1127,6 @@ def units(tier):
         {"name": "sample", "fn": unit_sample, "bound": None},
         {"name": "access", "fn": unit_access, "bound": None},
         {"name": "line", "fn": unit_line, "bound": None},
+        {"name": "line_faces", "fn": unit_line_faces, "bound": None},
         {"name": "bad", "fn": unit_bad, "bound": None},
     ]
